@@ -72,7 +72,7 @@ func genWorkload(p wlParams) *rapid.Generator[Case] {
 					ops = append(ops, st.Ops[pos:]...)
 					st.Ops = ops
 				case p.FaultPct > 0 && len(st.Ops) >= 2 && f >= 100-p.FaultPct:
-					st.Fault = &Fault{Kind: "write", At: rapid.IntRange(0, 3).Draw(t, "faultat"), Partial: rapid.SampledFrom([]int{0, 7, 43}).Draw(t, "faultpartial")}
+					st.Fault = &Fault{Kind: "write", At: rapid.IntRange(0, 3).Draw(t, "faultat"), Partial: rapid.SampledFrom([]int{0, 7, 43, 1 << 20}).Draw(t, "faultpartial")}
 				}
 				c.Steps = append(c.Steps, st)
 			}
